@@ -50,7 +50,7 @@ def main(tier):
     jobs = []
     for k in range(0, K + 1):
         for kinds in itertools.product((0, 1, 2, 3), repeat=k):
-            params = {'lines': k}
+            params = {'lines': k, 'hdr': 0}
             fl = {}
             for i, kd in enumerate(kinds):
                 params['k%d' % i] = kd
